@@ -95,6 +95,7 @@ func acceptTransports(ctx context.Context, listener TransportListener, c chan<- 
 		if err != nil {
 			return err
 		}
+		verifPoint("server.accept.enqueue")
 		select {
 		case <-ctx.Done():
 			return ctx.Err()
@@ -105,6 +106,7 @@ func acceptTransports(ctx context.Context, listener TransportListener, c chan<- 
 
 func (srv *Server) consumeTransports(ctx context.Context) {
 	for {
+		verifPoint("server.consume.loop")
 		select {
 		case <-ctx.Done():
 			return
